@@ -154,6 +154,7 @@ def gen_case(rng, i, nprocs, EC):
     p.close()
     p.emit("*", "barrier")
     p.emit(0, "snapshot", path="s:@OUT@/c13.nc", tag="final")
+    p.emit("*", "balance", final=1)
     return Case("c13_%05d" % i, nprocs, p.s.lines, meta={"expect": p.expect, "fm": p.fm, "feat": p.feat, "nposted": p.nb_posted})
 
 
